@@ -3,6 +3,7 @@ package sym
 import (
 	"fmt"
 	"go/types"
+	"math/big"
 	"strings"
 
 	"golang.org/x/tools/go/ssa"
@@ -495,6 +496,8 @@ func (x *Exec) zzverifEnv(name string, c *CallCtx) (Value, bool) {
 		return BoolV{B.Or(lt, eq)}, true
 	case "ToLowerIdem":
 		return nil, true
+	case "ValidSdkDenom":
+		return BoolV{x.validDenom(a[0].(StrV))}, true
 	case "HasPrefixStr":
 		s, p := a[0].(StrV), a[1].(StrV)
 		return BoolV{x.strPrefix(x.strAtomTerm(s), x.strAtomTerm(p))}, true
@@ -616,6 +619,20 @@ func (x *Exec) convertField(v Value, from, to types.Type) Value {
 	if types.Identical(from, to) {
 		return v
 	}
+	// string <-> sdkmath.Int (gogoproto customtype): "" is the nil Int
+	if typeName(to) == sdkmathPkg+".Int" {
+		if s, ok := v.(StrV); ok {
+			return x.strToSdkInt(s)
+		}
+	}
+	if typeName(from) == sdkmathPkg+".Int" {
+		if iv, ok := v.(SdkIntV); ok {
+			if iv.Nil {
+				return StrV{IsConst: true, S: ""}
+			}
+			return x.intToStr(iv.T)
+		}
+	}
 	fp, ok1 := from.Underlying().(*types.Pointer)
 	tp, ok2 := to.Underlying().(*types.Pointer)
 	if ok1 && ok2 {
@@ -647,4 +664,32 @@ func (x *Exec) convertField(v Value, from, to types.Type) Value {
 	}
 	// same underlying scalar kinds (enums, named strings, []byte vs sdk.AccAddress)
 	return v
+}
+
+// strToSdkInt decodes a stored integer amount. Invalid literals cannot be stored (the
+// customtype's Unmarshal rejects them), so a non-empty string is assumed to be a literal.
+func (x *Exec) strToSdkInt(s StrV) Value {
+	B := x.B
+	if s.IsConst {
+		if s.S == "" {
+			return SdkIntV{Nil: true}
+		}
+		v, ok := new(big.Int).SetString(s.S, 10)
+		if !ok {
+			x.Unsupported("stored integer amount %q is not a literal", s.S)
+		}
+		return SdkIntV{T: B.BigInt(v)}
+	}
+	if s.Atom == nil {
+		x.Unsupported("integer amount as a content string")
+	}
+	if x.Branch(B.Eq(s.Atom, B.StrConst(""))) {
+		return SdkIntV{Nil: true}
+	}
+	x.AssumeLocal(x.decIsIntLiteral(s.Atom), "stored integer amounts are integer literals")
+	neg, mag := x.decAtomParts(s.Atom)
+	t := B.Ite(neg, B.Neg(B.Floor(mag)), B.Floor(mag))
+	// the customtype's Unmarshal also rejects integers wider than 256 bits
+	x.AssumeLocal(B.And(B.Le(B.BigInt(new(big.Int).Neg(max256)), t), B.Le(t, B.BigInt(max256))), "stored integer amounts fit 256 bits")
+	return SdkIntV{T: t}
 }
